@@ -206,6 +206,56 @@ def run_chunk(chunk, st):
     st.bulk(evals, nontrivial, sample=sample)
 
 
+DEEP_LENGTHS = (500, 990, 1000, 1010, 1500, 3000, 6000)
+
+
+def deep_chunks(tier, seed):
+    return list(DEEP_LENGTHS)
+
+
+def deep_walk(n, variant):
+    """A legal walk of n sections: changes with files, deterministic."""
+    walk = ['diffx', '.preamble', '.meta']
+    cycle = (['.change', '..preamble', '..meta', '..file', '...meta',
+              '...diff', '..file', '...meta'] if variant == 0 else
+             ['.change', '..meta'] if variant == 1 else
+             ['.change', '..file', '...meta'])
+
+    while len(walk) < n:
+        walk.extend(cycle)
+
+    return tuple(walk[:n]) if walk[n - 1] in spec.TABLE else tuple(walk[:n])
+
+
+def run_deep_chunk(n, st):
+    evals = 0
+
+    for variant in (0, 1, 2):
+        p = deep_walk(n, variant)
+
+        for cand in ('.change', '..file', '...meta', '...diff', 'diffx',
+                     '.preamble', '..preamble', '.foo'):
+            res = judge(p, cand)
+            evals += 1
+
+            if res is not None:
+                st.violation(res[0], '%d sections then %s: %s'
+                             % (len(p), cand, res[1][:300]),
+                             {'deep': n, 'variant': variant,
+                              'candidate': cand})
+
+    st.bulk(evals, evals, sample={'sections': n})
+
+
+def run_deep_case(case, st):
+    p = deep_walk(case['deep'], case['variant'])
+    res = judge(p, case['candidate'])
+    st.case(case, nontrivial=True)
+
+    if res is not None:
+        st.violation(res[0], res[1][:300], case)
+
+
 def strategy():
     from hypothesis import strategies as hs
 
@@ -245,6 +295,14 @@ def checks():
                  'accepted iff the candidate may follow; non-trivial = '
                  'prefix depth >= 3; enumerated, hence distinct',
             bound={'quick': 'D = 12', 'thorough': 'D = 16'}),
+        EnumCheck(
+            'very-deep', deep_chunks, run_deep_chunk, run_case=run_deep_case,
+            rule='three deterministic legal walks of 500, 990, 1000, 1010, '
+                 '1500, 3000 and 6000 sections (around the interpreter\'s '
+                 'default recursion limit and far beyond) followed by 8 '
+                 'candidates; all non-trivial',
+            bound={'quick': '7 lengths x 3 walks x 8 candidates',
+                   'thorough': 'same'}),
         HypCheck(
             'random-deep', strategy, run_case,
             budget={'quick': (4, 150), 'thorough': (16, 5000)},
